@@ -275,6 +275,41 @@ def linked_worktree_cases(ctx, eng, res, stats):
                         "inside the %s the description printed for %s does not resolve (git rev-parse, same directory) to the cited object" % (where, pkey), inp,
                         expected=oidhex, observed={"description": desc, "rev-parse": got or p.stderr.decode("latin1")[:100]}))
     shutil.rmtree(wt, ignore_errors=True)
+    # a short name that exists both as a tag and as a branch (legal; git prefers the tag), and other short spellings
+    git(["update-ref", "refs/tags/rel", hexs(c_a)], d)
+    git(["update-ref", "refs/heads/rel", hexs(c_x)], d)
+    git(["update-ref", "refs/remotes/rel/HEAD", hexs(c_b)], d)
+    for args in (["rel"], ["heads/rel"], ["tags/rel"], ["refs/heads/rel"], ["rel", "heads/rel"], ["--tags", "rel"], ["--branches", "rel"], ["main"], ["heads/main"]):
+        cli = ["--json", "--no-progress", "--names=full"] + args
+        rc, out, err = S.run_sizer(ctx["bins"]["sizer"], d, cli)
+        inp = {"args": cli, "refs": {"refs/tags/rel": hexs(c_a), "refs/heads/rel": hexs(c_x), "refs/remotes/rel/HEAD": hexs(c_b), "refs/heads/main": hexs(c_a)}}
+        res.case(("ambiguous-short-name", tuple(args)), True)
+        if rc != 0:
+            res.violations.append(vlib.Violation("run failed: %s" % err[:200].decode("latin1"), inp))
+            continue
+        j = json.loads(out)
+        roots_ = [a for a in args if not a.startswith("--")]
+        tips = roots_ + (git(["for-each-ref", "--format=%(objectname)", "refs/tags" if "--tags" in args else "refs/heads"], d).stdout.decode().split()
+                         if args[0].startswith("--") else [])
+        want = int(git(["rev-list", "--count"] + tips, d).stdout.decode().strip() or -1)
+        if j["unique_commit_count"] != want:
+            res.violations.append(vlib.Violation("the commits measured are not those the ROOT spellings reach according to git", inp,
+                                                 expected={"unique_commit_count": want}, observed={"unique_commit_count": j["unique_commit_count"]}))
+        for pkey, vkey, kind in SLOTS:
+            val = j.get(pkey)
+            if not val:
+                continue
+            oidhex, _, desc = val.partition(" ")
+            desc = desc[1:-1] if desc.startswith("(") else ""
+            if not desc:
+                continue
+            p = git(["rev-parse", "--verify", "--end-of-options", desc], d)
+            stats["descriptions_resolved_by_git"] += 1
+            got = p.stdout.decode().strip()
+            if p.returncode != 0 or got != oidhex:
+                res.violations.append(vlib.Violation(
+                    "the description printed for %s does not resolve (git rev-parse) to the cited object" % pkey, inp,
+                    expected=oidhex, observed={"description": desc, "rev-parse": got or p.stderr.decode("latin1")[:100]}))
     shutil.rmtree(d, ignore_errors=True)
 
 
